@@ -693,3 +693,68 @@ Proof.
   destruct (step_actor _ _ _ _ _ H (fun f => f)) as (A & B & C).
   destruct (room s); repeat split; try congruence; try discriminate.
 Qed.
+
+Lemma NoDup_app_disjoint {A} (a b : list A) x : NoDup (a ++ b) -> In x a -> ~ In x b.
+Proof.
+  induction a as [|y a IH]; cbn [app]; intros Hn Hi; [destruct Hi|].
+  inversion Hn as [|? ? Hy Hn']; subst. destruct Hi as [->|Hi]; [|auto].
+  intro Hb. apply Hy. apply in_or_app. right. exact Hb.
+Qed.
+
+(* a metric the wrapped sink has been called for (whatever the outcome: accepted, failed,
+   panicked) occurs exactly once in the delivery log and is nowhere else any more *)
+Theorem reach_once cap handler evs s rs id o :
+  run true (init_q cap handler) evs = Some (s, rs) -> In (id, o) (q_delivered s) ->
+  count_occ Nat.eq_dec (map fst (q_delivered s)) id = 1 /\
+  ~ In id (inflight (q_wk s) ++ somes (q_chan s)) /\ id < q_accepted s.
+Proof.
+  intros R Hin. destruct (reach_prefix _ _ _ _ _ R) as (Hp & Hl & Hn & _ & Hn2).
+  assert (Hi : In id (map fst (q_delivered s))) by (apply (in_map fst) in Hin; exact Hin).
+  split; [apply NoDup_count_occ'; assumption|]. split.
+  - apply (NoDup_app_disjoint _ _ _ Hn2 Hi).
+  - rewrite Hp in Hi. apply in_seq in Hi. lia.
+Qed.
+
+Lemma errs_in d : forall m e, In (m, e) (errs d) <-> In (m, SErr e) d.
+Proof.
+  induction d as [|[m' o] d IH]; intros m e; cbn [errs]; [tauto|].
+  destruct o; cbn [In]; rewrite IH; split; intros H; try tauto.
+  - destruct H as [H|H]; [discriminate H | auto].
+  - destruct H as [H|H]; [left; congruence | auto].
+  - destruct H as [H|H]; [left; congruence | auto].
+  - destruct H as [H|H]; [discriminate H | auto].
+Qed.
+
+Lemma errs_nodup d : NoDup (map fst d) -> NoDup (map fst (errs d)).
+Proof.
+  induction d as [|[m o] l IH]; cbn [map fst errs]; intro Hn; [constructor|].
+  inversion Hn as [|? ? Hm Hn']; subst.
+  destruct o; auto. cbn [map fst]. constructor; [|auto].
+  intro Hi. apply Hm. apply in_map_iff in Hi. destruct Hi as ([m' e'] & <- & Hi).
+  apply errs_in in Hi. apply (in_map fst) in Hi. exact Hi.
+Qed.
+
+(* with a handler: every handled (metric, error) is a failure of the wrapped sink for that
+   metric, which was called exactly once for it; no metric is handled twice *)
+Theorem reach_handled_once cap evs s rs m e :
+  run true (init_q cap true) evs = Some (s, rs) -> In (m, e) (q_handled s) ->
+  In (m, SErr e) (q_delivered s) /\
+  count_occ Nat.eq_dec (map fst (q_delivered s)) m = 1 /\
+  NoDup (map fst (q_handled s)).
+Proof.
+  intros R Hin.
+  rewrite (reach_handled _ _ _ _ _ R) in *. apply errs_in in Hin.
+  split; [exact Hin|]. split; [apply (reach_once _ _ _ _ _ _ _ R Hin)|].
+  destruct (reach_prefix _ _ _ _ _ R) as (_ & _ & Hn & _). apply errs_nodup. exact Hn.
+Qed.
+
+(* the last drop on a full queue returns at once, leaving the marker with the helper thread *)
+Lemma droph_full s : q_handles s = 1 -> room s = false ->
+  exists s', step true s EDropH = Some (s', RNone) /\ q_handles s' = 0 /\
+             q_pill_pending s' = true /\ q_chan s' = q_chan s /\ q_wk s' = q_wk s.
+Proof.
+  intros Hh Er. cbn [step]. rewrite Hh. eexists. split; [reflexivity|].
+  unfold stop.
+  match goal with |- context [room ?x] => change (room x) with (room s) end.
+  rewrite Er. prj. auto.
+Qed.
